@@ -125,6 +125,7 @@ class CollCell:
         self.site = site
         self.born = born  # iterations that were running when the collection was created
         self.shared = ""  # where this one object was stored under many keys of a dictionary (dict.fromkeys(keys, obj), d[k] = obj in a loop)
+        self.order = None  # None = unknown | ("unsorted",) | ("sorted", key signature): what is known about the order of the elements
         self.scope = born  # iterations of which the collection is a per-element temporary (shrinks when it is stored in a longer-lived container)
 
 
@@ -291,6 +292,7 @@ class Interp:
     def store_entry(self, ref: Ref, k: frozenset, v: frozenset, explicit: str = "") -> None:
         if explicit:
             self.note_shared(k, v, explicit)
+            v = self.runs_to_parts(v, (ref.key, explicit))
         c = self.cells[ref.key]
         k, v = self.escape(c, k), self.escape(c, v)
         if (k, v) not in c.entries:
@@ -373,6 +375,7 @@ class Interp:
                 k = (key, "v", sh.key)
                 src = self.cell(sh)
                 r = self.coll(k, src.site)
+                self.cell(r).order = src.order  # a view has the order of what it shows
                 self.add(r, self.map_scalars(self.elems(V(sh)), f, (key, "e"), depth + 1))
                 out.add(r)
             elif isinstance(sh, Ref) and sh.kind == "obj" and self.cell(sh).ci is not None and self.cell(sh).ci.is_dataclass:
@@ -471,6 +474,63 @@ class Interp:
                             continue
                         return ("mix", self.site(fr, node), (self.where(fr, node) if fr is not None and node is not None else "") + (f" - the collection is one object shared by all keys ({force})" if force else ""))
         return None
+
+    def order_of(self, v: frozenset):
+        """Order facts of a value when all its alternatives are collections that agree."""
+        orders = set()
+        for sh in v:
+            if isinstance(sh, Ref) and sh.kind == "coll":
+                orders.add(self.cell(sh).order)
+            elif isinstance(sh, Ref) and sh.kind == "dict":
+                orders.add(None)
+            elif not (isinstance(sh, Const) and sh.value is None):
+                orders.add(None)
+        return orders.pop() if len(orders) == 1 else None
+
+    def key_sig(self, keyfn, elems: frozenset, call: ast.AST, env: dict, fr: Frame):
+        """Signature of a sort / grouping key: per component of the key, which content of a violation pair (rule subject / rule
+        object) it is made of; None when that is not known."""
+        comps: list[set] | None = None
+        for alt in [V(sh) for sh in elems]:
+            if keyfn:
+                kv: set = set()
+                for f in keyfn:
+                    if isinstance(f, Const) and f.value is None:
+                        kv |= alt
+                    else:
+                        kv |= self.apply(f, [alt], {}, call, env, fr)
+            else:
+                kv = set(alt)
+            for sh in kv:
+                items = list(sh.items) if isinstance(sh, Tup) else [V(sh)]
+                if comps is None:
+                    comps = [set() for _ in items]
+                if len(items) != len(comps):
+                    return None
+                for i, it in enumerate(items):
+                    scs = self.scalars(it)
+                    if not scs or any(not sc.roles or not sc.srcs for sc in scs):
+                        return None
+                    for sc in scs:
+                        comps[i].add(sc.roles)
+        if not comps or any(len(c) != 1 for c in comps):
+            return None
+        return tuple(next(iter(c)) for c in comps)
+
+    @staticmethod
+    def strip_runs(v: frozenset) -> frozenset:
+        if not any(isinstance(sh, Sc) and any(m[0] == "run" for m in sh.marks) for sh in v):
+            return v
+        return frozenset(replace(sh, marks=frozenset(m for m in sh.marks if m[0] != "run")) if isinstance(sh, Sc) else sh for sh in v)
+
+    def runs_to_parts(self, v: frozenset, key) -> frozenset:
+        """A value stored (not accumulated) under a dictionary key: when it stems from an incomplete `groupby` run, the runs of the
+        same key that come later replace it - pairs are lost."""
+        runs = {m for sc in self.scalars(v) for m in sc.marks if m[0] == "run"}
+        if not runs:
+            return v
+        marks = [("part", m[1], m[2], True) for m in runs]
+        return self.with_marks(v, marks, ("runs", key))
 
     @staticmethod
     def unvet(v: frozenset) -> frozenset:
@@ -961,7 +1021,8 @@ class Interp:
         if m is not None:
             v = self.with_marks(v, [m], (id(node), fr.inv, "bake"))
         if keyed_add:
-            v = frozenset(replace(sh, vet=True) if isinstance(sh, Sc) else sh for sh in v)
+            # accumulation under the key: runs of one key that were split by `groupby` are re-united
+            v = frozenset(replace(sh, vet=True) if isinstance(sh, Sc) else sh for sh in self.strip_runs(v))
         return v
 
     def recv_for_mutation(self, e: ast.expr, env: dict, fr: Frame, kind: str) -> tuple[frozenset, frozenset | None]:
@@ -1357,6 +1418,15 @@ class Interp:
                     self.active.pop()
 
         gen(0, dict(env), outer_marks)
+        if isinstance(e, ast.SetComp):
+            self.cell(res).order = ("unsorted",)
+        elif not isinstance(e, ast.DictComp) and len(e.generators) == 1 and isinstance(e.elt, ast.Name) and isinstance(e.generators[0].target, ast.Name) and e.elt.id == e.generators[0].target.id:
+            # `[x for x in xs if c]`: a sub-sequence keeps the order of xs
+            try:
+                self.in_cond += 1
+                self.cell(res).order = self.order_of(self.ev(e.generators[0].iter, env, fr))
+            finally:
+                self.in_cond -= 1
         return V(res)
 
     def subscript(self, e: ast.Subscript, env: dict, fr: Frame) -> frozenset:
@@ -1367,6 +1437,7 @@ class Interp:
                 if isinstance(sh, Ref) and sh.kind == "coll":
                     full = e.slice.lower is None and e.slice.upper is None
                     r = self.coll((id(e), fr.inv, "slice", sh.key), self.site(fr, e))
+                    self.cell(r).order = self.cell(sh).order
                     el = self.elems(V(sh))
                     self.add(r, el)
                     if not full:
@@ -1764,6 +1835,8 @@ class Interp:
     def coll_method(self, sh: Ref, name: str, args, kwargs, call: ast.Call, env: dict, fr: Frame, key) -> frozenset:
         if name in MUTATORS_ADD1 or name == "insert":
             v = self.unvet(self.select(args[-1] if args else E, call, env, fr))
+            if self.cell(sh).order and self.cell(sh).order[0] == "sorted":
+                self.cell(sh).order = None
             if key is not None:
                 v = self.bake(key, v, fr, call, self.cell(sh).shared, keyed_add=True)
             self.add(sh, v)
@@ -1777,7 +1850,12 @@ class Interp:
                 self.add(sh, v)
                 self.note_mutation([sh], v, call, env, fr)
             return NONE_V
-        if name in ("sort", "reverse", "remove", "discard", "clear"):
+        if name == "sort":
+            els = self.elems(V(sh))
+            sig = self.key_sig(kwargs.get("key"), els, call, env, fr) if els else None
+            self.cell(sh).order = ("sorted", sig) if sig else None
+            return NONE_V
+        if name in ("reverse", "remove", "discard", "clear"):
             return NONE_V
         if name in ("pop", "popleft", "__next__"):
             return self.pick(self.elems(V(sh)), (id(call), fr.inv), self.site(fr, call))
@@ -1856,7 +1934,16 @@ class Interp:
                     rest.add(sh)
             if rest or not out:
                 r = self.coll(key, site)
-                self.add(r, self.unvet(self.elems(frozenset(rest))))
+                els = self.unvet(self.elems(frozenset(rest)))
+                self.add(r, els)
+                if short == "sorted":
+                    keyfn = kwargs.get("key")
+                    sig = self.key_sig(keyfn, els, call, env, fr) if els else None
+                    self.cell(r).order = ("sorted", sig) if sig else None
+                elif short in ("set", "frozenset"):
+                    self.cell(r).order = ("unsorted",)
+                else:
+                    self.cell(r).order = self.order_of(frozenset(rest))
                 out.add(r)
             return frozenset(out)
         if name in ("operator.itemgetter", "itemgetter", "operator.attrgetter", "attrgetter"):
@@ -1871,10 +1958,22 @@ class Interp:
             keyfn = args[1] if len(args) > 1 else kwargs.get("key")
             e = self.eid((id(call), "groupby", fr.inv), site)
             first = self.elems(args[0])
+            # groupby only groups consecutive runs: the groups are complete only if the sequence is sorted by (a key that starts
+            # with) the grouping key
+            order = self.order_of(args[0])
+            gsig = self.key_sig(keyfn, first, call, env, fr) if first else None
+            why = ""
+            if order == ("unsorted",) and gsig:
+                why = f"`{norm(call, 70)}` groups a sequence that is not sorted at all: a group holds only one consecutive run of its key"
+            elif order and order[0] == "sorted" and gsig and order[1] and order[1][: len(gsig)] != gsig:
+                names = {frozenset({"S"}): "rule subject", frozenset({"O"}): "rule object", frozenset({"S", "O"}): "subject and object"}
+                show = lambda sig: "(" + ", ".join(names.get(c, "?") for c in sig) + ")"  # noqa: E731
+                why = f"`{norm(call, 70)}` groups by {show(gsig)} a sequence that is sorted by {show(order[1])}: a group holds only one consecutive run of its key"
+            run_mark = [("run", site, why)] if why else []
             self.active.append(e)
             try:
                 for alt in [V(sh) for sh in first]:
-                    cur = self.retag(alt, e, (id(call), fr.inv, "gb"))
+                    cur = self.retag(alt, e, (id(call), fr.inv, "gb"), run_mark)
                     kv: set = set()
                     if keyfn:
                         for f in keyfn:
@@ -1905,7 +2004,8 @@ class Interp:
                     elif isinstance(o, Ref) and o.kind == "coll":
                         for t in self.elems(V(o)):
                             if isinstance(t, Tup) and len(t.items) == 2:
-                                self.store_entry(r, t.items[0], self.bake(t.items[0], t.items[1], fr, call))
+                                # key and value were combined when the pair was built (and checked there)
+                                self.store_entry(r, t.items[0], t.items[1], explicit=site)
                             elif isinstance(t, Top):
                                 return V(t)
             for k, v in kwargs.items():
@@ -1935,6 +2035,7 @@ class Interp:
             return V(r)
         if name == "filter" and len(args) >= 2:
             r = self.coll(key, site, self.elems(args[1]))
+            self.cell(r).order = self.order_of(args[1])
             grouped = any(self.live(sc.assoc - sc.gone) for sc in self.scalars(self.elems(args[1])))
             self.add_part(r, [("part", site, f"`{norm(call, 60)}` keeps only some elements", grouped)])
             return V(r)
